@@ -2,9 +2,7 @@ package fixedn
 
 import (
 	"errors"
-	"fmt"
 	"math/big"
-	"strconv"
 	"strings"
 )
 
@@ -49,12 +47,10 @@ func ToString(bi *big.Int, precision int) string {
 		// The integral part is zero and can't carry the sign.
 		s = "-" + s
 	}
-	frac := fp.Uint64()
-	trimmed := 0
-	for ; frac%10 == 0; frac /= 10 {
-		trimmed++
-	}
-	return s + "." + fmt.Sprintf("%0"+strconv.FormatUint(uint64(precision-trimmed), 10)+"d", frac)
+	// The fraction doesn't fit 64 bits for precisions above 19.
+	frac := fp.Abs(&fp).String()
+	frac = strings.Repeat("0", precision-len(frac)) + frac
+	return s + "." + strings.TrimRight(frac, "0")
 }
 
 // FromString converts a string to a big decimal with the specified precision.
